@@ -94,6 +94,10 @@ def check(run):
     run.rule('D5', 'calculate_representation_hash() recomputes exactly the cached hash', 3)
     run.rule('D6', '__eq__ is equality of representation hashes; __hash__ is an int function of that hash only', 4)
     run.rule('D7', 'hash/depth/level fields are written only while constructing; every route (end_cell, to_cell, copy, begin_parse().to_cell()) re-derives the same hash', 4)
+    # cells parsed from a bag that carries stored hashes (also on exotic cells): the parser must skip them and compute hash/depth/type from the content
+    from .C05 import stored_hash_scenarios
+    from .. import bocrun as _bocrun
+    stored_hash_scenarios(run, prog, 'D7', _bocrun.dags(False), prog.where(prog.method('Boc', 'deserialize_cell')))
     run.trust('CPython ast', 'checker interpreter + models of bitarray, int.to_bytes, hashlib.sha256', 'tvm.pdf 3.1.4-3.1.6 transcription (sa/cellmodel.py)')
     run.exhaustive = True
     thorough = run.tier == 'thorough'
